@@ -366,12 +366,13 @@ func genEncodings() {
 	f := parseFile("font/encoding.go")
 	var b strings.Builder
 	b.WriteString(header + "namespace Tabula.Gen.Encodings\n\n")
-	for _, t := range []string{"winAnsiTable", "macRomanTable", "pdfDocTable", "standardEncodingTableData", "symbolEncodingTable", "zapfDingbatsEncodingTable"} {
-		b.WriteString(leanNatArray(t, intArray(f, t)))
-		b.WriteString("\n")
-	}
+	// The tables are located through the exported encoding variables (`table: X`), and
+	// written under fixed Lean names: the unexported identifier X may change freely.
+	canon := map[string]string{"WinAnsiEncoding": "winAnsiTable", "MacRomanEncoding": "macRomanTable", "PDFDocEncoding": "pdfDocTable",
+		"StandardEncodingTable": "standardEncodingTableData", "SymbolEncoding": "symbolEncodingTable", "ZapfDingbatsEncoding": "zapfDingbatsEncodingTable"}
 	// named encoding variable -> (name, table identifier)
-	b.WriteString("def encodingVars : List (String × String × String) := [")
+	var vars strings.Builder
+	vars.WriteString("def encodingVars : List (String × String × String) := [")
 	first := true
 	for _, v := range []string{"WinAnsiEncoding", "MacRomanEncoding", "PDFDocEncoding", "StandardEncodingTable", "SymbolEncoding", "ZapfDingbatsEncoding"} {
 		vs := findVar(f, v)
@@ -395,11 +396,14 @@ func genEncodings() {
 			return true
 		})
 		if !first {
-			b.WriteString(",")
+			vars.WriteString(",")
 		}
 		first = false
-		fmt.Fprintf(&b, "\n  (%s, %s, %s)", leanStr(v), leanStr(name), leanStr(table))
+		b.WriteString(leanNatArray(canon[v], intArray(f, table)))
+		b.WriteString("\n")
+		fmt.Fprintf(&vars, "\n  (%s, %s, %s)", leanStr(v), leanStr(name), leanStr(canon[v]))
 	}
+	b.WriteString(vars.String())
 	b.WriteString("]\n\n")
 	b.WriteString(leanSwitch("getEncodingCases", switchCases(findFunc(f, "", "GetEncoding"), 0)))
 	b.WriteString("\nend Tabula.Gen.Encodings\n")
